@@ -170,7 +170,9 @@ Record world := mkWorld {
 
 Inductive res (A : Type) :=
 | Ok (a : A)
-| Panic (site : N)      (* 1: canonicalize(path).unwrap() in get_key_for_path
+| Panic (site : N)      (* 1: canonicalize(path) fails in get_key_for_path: since /repo commit 0f41eb8 an
+                              Err(InvalidParams) returned to the caller (it was an unwrap panic before);
+                              kept as its own outcome, reported as an error answer by `step`
                            2: read_dir(&path).unwrap() in index_files *)
 | OutOfFuel.
 Arguments Ok {A} a.
@@ -296,7 +298,7 @@ Definition step (s : world * svc) (o : op) : (world * svc) * answer :=
       | Ok (st1, _) =>
           (* reset_transient_data; parse_content; set_opened_document(Some(new_doc)) *)
           ((w, set_doc p (fun d => mkDoc (did d) (Some v) (saved d)) st1), ANone)
-      | Panic k => ((w, st), APanic k)
+      | Panic k => ((w, st), if k =? 1 then AErr else APanic k)
       | OutOfFuel => ((w, st), AFuel)
       end
   | Parse p =>
@@ -311,7 +313,7 @@ Definition step (s : world * svc) (o : op) : (world * svc) * answer :=
               end
           | _, _ => ((w, st1), ANone)
           end
-      | Panic k => ((w, st), APanic k)
+      | Panic k => ((w, st), if k =? 1 then AErr else APanic k)
       | OutOfFuel => ((w, st), AFuel)
       end
   | Save p =>
@@ -323,20 +325,20 @@ Definition step (s : world * svc) (o : op) : (world * svc) * answer :=
           | Panic k => ((w, st2), APanic k)
           | OutOfFuel => ((w, st2), AFuel)
           end
-      | Panic k => ((w, st), APanic k)
+      | Panic k => ((w, st), if k =? 1 then AErr else APanic k)
       | OutOfFuel => ((w, st), AFuel)
       end
   | Close p =>
       match get_document_info w p st with
       | Ok (st1, _) => ((w, set_doc p (fun d => mkDoc (did d) None None) st1), ANone)
-      | Panic k => ((w, st), APanic k)
+      | Panic k => ((w, st), if k =? 1 then AErr else APanic k)
       | OutOfFuel => ((w, st), AFuel)
       end
   | LookupClass c => ((w, st), AClass (lookup_class st c))
   | LookupUri p =>
       match get_document_info w p st with
       | Ok (st1, d) => ((w, st1), ADoc d)
-      | Panic k => ((w, st), APanic k)
+      | Panic k => ((w, st), if k =? 1 then AErr else APanic k)
       | OutOfFuel => ((w, st), AFuel)
       end
   | Count => ((w, st), ACount (length (docs st)))
